@@ -30,7 +30,7 @@ ASSUMPTIONS = ['grids carry no repeated values (the table key must identify the 
 FLOORS = {'quick': {'grids_with_non_list_collections': 67, 'searches': 300, 'parallel_searches': 150, 'results_checked': 1500, 'mode_0': 15, 'mode_1': 15, 'mode_2': 15, 'mode_3': 15,
                     'mode_4': 15, 'mode_5': 15, 'mode_6': 15, 'mode_7': 15, 'tied_optimum': 40, 'optimum_last': 30, 'optimum_first': 30,
                     'optimum_middle': 20, 'beyond_maxsize_tables': 40, 'seeded_grids': 40, 'big_equal_valued_neighbours': 2, 'big_long_variance': 2, 'big_grids': 2, 'parameter_list_reused': 80, 'style_bigint': 15, 'style_nearmax': 8, 'limit_below_completion': 30,
-                    'reach:Batching.grid_search': 300, 'reach:Batching._score_model_for_search': 1500},
+                    'reach:Batching.grid_search': 300},
           'thorough': {'searches': 12000, 'parallel_searches': 6000}}
 EXHAUSTIVE = {}
 
